@@ -38,9 +38,126 @@ def u1_committable(src, nbatches):
     FM.check_delivery(src, log, iso, res, prefix="committable offset: ")
 
 
+def u2_committable_after_error(src, nbatches):
+    """the same clause when a checksum failure in the k-th batch makes a getone()/getmany() call raise
+    half-way through a response: whatever happens to the buffer afterwards, nothing undelivered is passed"""
+    from aiokafka.consumer.fetcher import READ_COMMITTED, READ_UNCOMMITTED
+    from . import fetchmodel as FM
+    iso = [READ_COMMITTED, READ_UNCOMMITTED][src.choice("isolation", 2)]
+    style = ["getall", "getone", "getall1"][src.choice("style", 3)]
+    log = FM.build_log(src, nbatches, 2, max_records=2, transactional=True)
+    bad = src.choice("batch_with_bad_checksum", nbatches)
+    res = FM.run_fetch(src, log, iso, "getone" if style == "getone" else "getall", 1 if style == "getall1" else None, corrupt_batch=bad)
+    src.note({"raised": res.get("raised"), "delivered": len(res["delivered"])})
+    FM.check_committable(src, log, iso, res, prefix="after a failed call: ")
+
+
+def s2_handover_at_offset_zero(src):
+    """A member owns an empty partition, commits its position (0) and goes; records arrive; the next owner is
+    given committed offset 0 and must start there whatever its reset policy says (0 is an offset, not 'none')."""
+    import asyncio
+    import aiokafka.errors as E
+    from aiokafka.structs import TopicPartition
+    from env import simkafka, vloop
+    policy = ["latest", "earliest", "none"][src.choice("policy_of_the_next_owner", 3)]
+    how = ["stop", "commit_then_crash"][src.choice("first_owner_goes_by", 2)]
+    nrec = [1, 3][src.choice("records_arriving_in_between", 2)]
+    cluster = simkafka.Cluster(nodes=(0, 1), topics={"t": 1})
+    cluster.blackhole = set()
+    res = {"delivered": []}
+    tp = TopicPartition("t", 0)
+
+    def mk(cid, pol):
+        return AIOKafkaConsumer(bootstrap_servers="h0:9092", group_id="g", client_id=cid, enable_auto_commit=False,
+                                auto_offset_reset=pol, fetch_max_wait_ms=50, request_timeout_ms=1000, retry_backoff_ms=20,
+                                session_timeout_ms=600, heartbeat_interval_ms=100, rebalance_timeout_ms=600)
+
+    async def main(loop):
+        with simkafka.installed(cluster):
+            a = mk("A", "latest")
+            a.subscribe(["t"])
+            await a.start()
+            try:
+                await asyncio.wait_for(a.getone(), timeout=0.3)
+            except asyncio.TimeoutError:
+                pass
+            res["a_position"] = await a.position(tp)
+            await a.commit()
+            if how == "stop":
+                await a.stop()
+            else:
+                cluster.blackhole.add("A")
+                for c in list(cluster.conns):
+                    if c.client_id == "A" and c.connected():
+                        c.close(reason="crash")
+            for _ in range(nrec):
+                GO.append_record(cluster, ("t", 0))
+            await asyncio.sleep(1.0 if how != "stop" else 0.05)
+            b = mk("B", policy)
+            b.subscribe(["t"])
+            await b.start()
+            t_end = loop.time() + 2.5
+            try:
+                while loop.time() < t_end and len(res["delivered"]) < nrec:
+                    batch = await b.getmany(timeout_ms=100)
+                    for _, recs in batch.items():
+                        res["delivered"].extend(r.offset for r in recs)
+            except E.KafkaError as e:
+                res["exc"] = type(e).__name__
+            res["given"] = [x["reply_obj"] for x in cluster.arrivals if x["req"]["api"] == "OffsetFetch" and x["client"] == "B" and x["reply_obj"] is not None]
+            for c in (b,) + ((a,) if how != "stop" else ()):
+                try:
+                    await asyncio.wait_for(c.stop(), timeout=10)
+                except (asyncio.TimeoutError, asyncio.CancelledError, Exception):  # noqa: BLE001
+                    pass
+
+    try:
+        vloop.run(main, max_vtime=300)
+    except vloop.Deadlock as e:
+        res["deadlock"] = str(e)
+    stored = cluster.group("g").offsets.get(("t", 0), (None, ""))[0]
+    info = dict(policy=policy, first_owner_goes_by=how, records=nrec, committed_in_group=stored, delivered=res["delivered"], exc=res.get("exc"))
+    src.note(info)
+    src.check("deadlock" not in res, "consumers did not settle: " + str(res.get("deadlock")), **info)
+    if stored != 0:
+        return  # the history this harness is about did not come about
+    want = list(range(nrec))
+    if src.twin:
+        want = want[1:]
+    src.check("exc" not in res, f"the next owner got {res.get('exc')} although the group has a committed offset (0) for the partition", **info)
+    src.check(res["delivered"] == want, f"the next owner was given committed offset 0 but delivered {res['delivered']} instead of {want}: "
+              "records between the commit point and its start position are lost for the group", **info)
+
+
 def harnesses(tier):
     q = tier == "quick"
-    return _u1(tier) + _s1(tier)
+    return _u1(tier) + _u2(tier) + _s2(tier) + _s1(tier)
+
+
+def _s2(tier):
+    from aiokafka.consumer.fetcher import Fetcher
+    return [Harness(
+        name="S2_handover_at_offset_zero", fn=s2_handover_at_offset_zero,
+        functions=[Fetcher._update_fetch_positions, GroupCoordinator._do_fetch_commit_offsets], shape="S",
+        symbolic_vars="choices: reset policy of the next owner, how the first owner goes (stop / commit then crash), records arriving in between",
+        bounds={"members": 2, "partitions": 1, "records": "1 or 3"},
+        stubs=["SimConn broker + group coordinator model", "virtual-time loop"], max_seconds=300, twin_max_paths=100)]
+
+
+def _u2(tier):
+    from aiokafka.consumer.fetcher import FetchResult, PartitionRecords
+    hs = []
+    for nb in ([2] if tier == "quick" else [2, 3]):
+        hs.append(Harness(
+            name=f"U2_committable_after_error_{nb}batches", fn=u2_committable_after_error, params={"nbatches": nb},
+            functions=[FetchResult.getall, FetchResult.getone, FetchResult.check_assignment, FetchResult.has_more,
+                       FetchResult._update_position, PartitionRecords._unpack_records],
+            shape="U",
+            symbolic_vars="all offsets as unbounded z3 Ints; batch kinds, isolation level, retrieval style and which batch fails its checksum as choices",
+            bounds={"batches": nb, "records_per_batch": "0..2"},
+            assumptions=["as C08-U1 (a)-(d)"], stubs=["record batches replaced by stub objects; one of them reports an invalid checksum"],
+            max_seconds=300 if tier == "quick" else 1500, twin_max_paths=2000))
+    return hs
 
 
 def _u1(tier):
